@@ -686,7 +686,7 @@ func (f *File) CopySampleData(w io.Writer, rs io.ReadSeeker, trak *TrakBox,
 			} else {
 				nrLeft := int(size)
 				nrRead := 0
-				for {
+				for nrLeft > 0 {
 					end := min(workLen, workPos+nrLeft)
 					n, err := rs.Read(workSpace[workPos:end])
 					if err != nil {
